@@ -76,6 +76,9 @@ pub async fn settle(sink: &Sink, polls: &[Arc<AtomicU64>]) -> bool {
 static LAST_PANIC: Mutex<Option<String>> = Mutex::new(None);
 
 pub fn install_panic_hook() {
+    if std::env::var("VERIF_NO_PANIC_HOOK").is_ok() {
+        return;
+    }
     std::panic::set_hook(Box::new(|info| {
         let loc = info
             .location()
